@@ -15,10 +15,10 @@ echo "demo files: $demo"
 feat=""; pkg=""
 case "$demo" in *zvt_feig_terminal*) pkg="-p zvt_feig_terminal"; feat="--features zvt_verif";; *zvt_builder*) pkg="-p zvt_builder";; *zvt_derive*) pkg="-p zvt_derive";; *) pkg="-p zvt";; esac
 tname=$(basename $(echo $demo | awk '{print $1}') .rs)
-base=$(cargo test --workspace --no-fail-fast --offline 2>&1 | grep -E "^test result" | awk '{p+=$4; f+=$6} END {print p" passed "f" failed"}')
-with=$(cargo test $pkg $feat --test $tname --offline 2>&1 | grep -E "^test result" | tail -1)
+base=$(cargo test --workspace --no-fail-fast --offline 2>&1 | grep -aE "^test result" | awk '{p+=$4; f+=$6} END {print p" passed "f" failed"}')
+with=$(cargo test $pkg $feat --test $tname --offline 2>&1 | grep -aE "^test result" | tail -1)
 git apply -R seeded/patch.diff
-without=$(cargo test $pkg $feat --test $tname --offline 2>&1 | grep -E "^test result" | tail -1)
+without=$(cargo test $pkg $feat --test $tname --offline 2>&1 | grep -aE "^test result" | tail -1)
 git apply seeded/patch.diff
 echo "baseline+demo with patch (workspace run counts the demo too): $base"
 echo "demo with patch:    $with"
